@@ -295,7 +295,7 @@ def shard(tier, i, n, seed):
                 check_case(idx, name, T, v, tier, R, others)
             except M.ModelError:
                 R.features['model_skipped'] += 1
-        guarded(R, one, {'slice': name, 'T': T, 'v': v}, CM.type_features(T), idx)
+        guarded(R, one, {'slice': name, 'T': T, 'v': v}, CM.type_features(T), idx, cpu_limit=180)
         R.features['slice:' + name] += 1
         if idx % 9973 == seed % 9973:
             R.sample({'T': M.show_type(T), 'v': v})
